@@ -2,6 +2,7 @@ pub mod chmux_wl;
 pub mod c01;
 pub mod c04;
 pub mod c06;
+pub mod c11;
 
 use crate::harness::Check;
 
@@ -10,6 +11,7 @@ pub fn all() -> Vec<Check> {
     v.extend(c01::checks());
     v.extend(c04::checks());
     v.extend(c06::checks());
+    v.extend(c11::checks());
     v
 }
 
@@ -20,6 +22,7 @@ pub const STUB_NET: &str = "transport = in-memory simnet link (seeded latency, b
 pub fn dynamic_runs(id: &str, tier: &str) -> u64 {
     match id {
         "C06" => c06::space_runs(if tier == "thorough" { 600 } else { 30 }),
+        "C11" => c11::space_runs(if tier == "thorough" { 2000 } else { 60 }),
         _ => 1000,
     }
 }
